@@ -32,6 +32,16 @@ CHECKS = {
              "recomputed by Trace_C03 from the independent reader's table.",
         design_ref="DESIGN.md section 3, C03",
         note="Offset units are C06's; // % comparisons are checked only on generated registries (not ring operations, no fingerprints)."),
+    "C05": dict(
+        technique="TLA+ spec (Quantity, Offset) model-checked with TLC for the equivalence / order / hash laws in both registry modes; every TLC state replayed on real quantities; constructed equal and adjacent pairs over the bundled registry validated by a TLC trace spec",
+        text="TLC checks over a pool of 77 quantities (multiplicative, offset, delta, absolute, dimensionless units; 1 inch = 2.54 cm, 0 C = 273 K) and 3 bare "
+             "numbers that == is exactly 'same dimensionality and equal magnitude after conversion', reflexive, symmetric, transitive, that equal "
+             "quantities have equal hash keys, that != negates ==, trichotomy / order by root magnitude, and the cross-dimension and bare-number rules; "
+             "all 86k states (two modes) are executed on materialised Fraction registries; over the bundled registry pairs constructed physically "
+             "equal or adjacent are compared with all six operators and hash, the construction being validated by Trace_Reg through fingerprints.",
+        design_ref="DESIGN.md section 3, C05",
+        note="Triples mixing offset and delta units are outside transitivity / trichotomy by design (offset <-> delta conversion is refused); NaN is "
+             "checked relationally in the harness."),
     "C04": dict(
         technique="TLA+ spec (UnitAlgebra, LinAlg) model-checked with TLC; TLC-generated cases replayed into pint; recorded operations validated by a TLC trace spec",
         text="TLC checks exhaustively (3 names, exponents -2..2 and +-1/2, all pairs, all powers, triples) that the operational model of "
